@@ -6,6 +6,7 @@ From MV Require Util.EpName.
 From MV Require IH5.OverlayRun.
 From MV Require Util.Diff.
 From MV Require Util.DirHash.
+From MV Require Util.DirHashChain.
 From MV Require Rec.Chain.
 From MV Require Schema.Partial.
 From MV Require Schema.RoundTrip.
@@ -32,6 +33,7 @@ Definition dispatch (x : sx) : sx :=
   | L [A "c01"; c] => IH5.OverlayRun.run_c01 c
   | L [A "c18"; c] => Util.Diff.run_c18 c
   | L [A "c19"; c] => Util.DirHash.run_c19 c
+  | L [A "c19c"; c] => Util.DirHashChain.run_c19c c
   | L [A "c04"; c] => Rec.Chain.run_c04 c
   | L [A "c14"; c] => Schema.Partial.run_c14 c
   | L [A "c12"; c] => Schema.RoundTrip.run_c12 c
